@@ -531,6 +531,24 @@ func (c *msCtx) coinDenoms(x ast.Expr, depth int) []string {
 				}
 			}
 		}
+	case *ast.IndexExpr:
+		// coll[key]: an element of a collection, same origin as the value of a range over it
+		src := unparen(e.X)
+		if id, ok := src.(*ast.Ident); ok {
+			if d2, k2 := c.local(id.Name); d2 != nil && k2 == "" {
+				src = unparen(d2)
+			}
+		}
+		if ce, ok := src.(*ast.CallExpr); ok {
+			nm := callName(ce)
+			if i := strings.LastIndex(nm, "."); i >= 0 {
+				nm = nm[i+1:]
+			}
+			if c.zeroBalanceFn(nm) {
+				return []string{"DZeroBal"}
+			}
+			return []string{"DOther " + q("element of "+nm+"()")}
+		}
 	case *ast.Ident:
 		if c.isParam(e.Name) {
 			return []string{"DParam " + q(c.fn.name)}
